@@ -54,6 +54,44 @@ def corrupt(lines, how):
                         if b["tok"]:
                             b["tok"] = "0000000000000000"
                             return ev, ("C08", "loaded")
+    # -- the implementation view (N2Sched operators applied to the `set` events)
+    if how == "set-counts":
+        for e in ev:
+            if e["e"] == "set" and e["new"] == "Queued":
+                e["counts"][2] += 1
+                return ev, ("CONF", "set-counts")
+    if how == "set-pending":
+        for e in ev:
+            if e["e"] == "set" and e["new"] == "Done":
+                e["pending"] += 1
+                return ev, ("CONF", "set-pending")
+    if how == "set-pools":
+        for e in ev:
+            if e["e"] == "set" and e["new"] == "Running" and e["pools"]:
+                e["pools"][0][1] += 1
+                return ev, ("CONF", "set-pools")
+    if how == "drop-promotion":
+        # the hook call for one Want -> Ready promotion removed: the model still owes it
+        for i, e in enumerate(ev):
+            if e["e"] == "set" and e["prev"] == "Want" and e["new"] == "Ready":
+                ev.pop(i)
+                return ev, ("CONF", "promotion-missed")
+    if how == "early-ready":
+        # a step wanted as Ready although its producer is not Done
+        for e in ev:
+            if e["e"] == "set" and e["prev"] == "Unknown" and e["new"] == "Want":
+                e["new"] = "Ready"
+                return ev, ("CONF", "set-guard")
+    if how == "illegal-transition":
+        for e in ev:
+            if e["e"] == "set" and e["prev"] == "Ready" and e["new"] == "Queued":
+                e["new"] = "Running"
+                return ev, ("CONF", "set-illegal")
+    if how == "model-ran":
+        for e in ev:
+            if e["e"] == "expect" and e["ran"]:
+                e["ran"] = e["ran"][1:]
+                return ev, ("C03", "model-ran-extra")
     if how == "exit":
         for e in ev:
             if e["e"] == "end":
@@ -66,6 +104,7 @@ def run():
     print("== planted defects in the specification")
     for b, inv in (("nodisc", "C02"), ("nocmd", "C02"), ("noouts", "C02"), ("firstout", "C03")):
         ok &= expect_violation("N2Hist RuleBug=%s" % b, "N2Hist.tla", "MC_Hist_bug_%s.cfg" % b, inv)
+    ok &= expect_violation("N2Hist RuleBug=noreload", "N2Hist.tla", "MC_Hist_bug_noreload.cfg", "C02")
     ok &= expect_violation("N2Log Recovery=asis", "N2Log.tla", "MC_Log_asis.cfg", "AlwaysLoadable")
     print("== binding of the trace specification")
     D.build_harness()
@@ -77,7 +116,9 @@ def run():
     g = n2gen.graph([n2gen.step(["a"], ["in"]), n2gen.step(["b"], ["a"]), n2gen.step(["c"], ["a"], pool="p"),
                      n2gen.step(["d"], ["b", "c"])], pools=[("p", 1)])
     ops = [n2gen.manifest_op(g), {"op": "write", "path": "in"},
-           n2gen.invoke([], j=2, outcomes={3: "fail"}), n2gen.invoke([], j=2), n2gen.invoke([], j=2)]
+           n2gen.invoke([], j=2, outcomes={3: "fail"}), n2gen.invoke([], j=2),
+           {"op": "expect", "ran": ["c", "d"], "ok": True, "deps": [[], [], [], []], "recorded": [1, 2, 3, 4]},
+           n2gen.invoke([], j=2)]
     sp = os.path.join(wdir, "s.ndjson")
     n2gen.dump([n2gen.scenario("self", ops)], sp)
     res = D.run_harness_shards(sp, os.path.join(wdir, "t"), 1, 1)
@@ -86,7 +127,8 @@ def run():
     clean = [x for x in v["viol"] if x[0] != "CONF"]
     print("%-34s %s" % ("uncorrupted trace", "accepted" if not v["viol"] else "REJECTED %s" % v["viol"][:3]))
     ok &= not v["viol"]
-    for how in ("swap-start-finish", "counts", "drop-dbw", "j", "loaded", "exit"):
+    for how in ("swap-start-finish", "counts", "drop-dbw", "j", "loaded", "exit", "set-counts", "set-pending",
+                "set-pools", "drop-promotion", "early-ready", "illegal-transition", "model-ran"):
         ev, (prop, tag) = corrupt(lines, how)
         if ev is None:
             print("%-34s could not be applied" % how); ok = False; continue
